@@ -17,6 +17,8 @@ type Omni struct {
 	Opts      ScenarioOpts
 	PosSample int
 	AllPos    bool
+	// AllPosEvery > 0: every AllPosEvery-th base is queried at all offsets (the others at a sample)
+	AllPosEvery int
 	OnlyBase  int // replay: >=0 restricts to one base
 	OnScenario func(s *Scenario, loc map[string]interface{}, collect []CollectRes)
 	// BeforeCollect runs before the scenario's reference collection (the first calls made with its schemas)
@@ -100,7 +102,8 @@ func omnibus(run *Run, o Omni, visit Visit) {
 				}
 			}
 			tbl := lcTable(s.Src)
-			for _, off := range append(append(cursorOffsets(r, s.Src, o.AllPos, o.PosSample), s.Offsets...), callOffsets(s.Src)...) {
+			allPos := o.AllPos || (o.AllPosEvery > 0 && bi%o.AllPosEvery == 0 && si == 0)
+			for _, off := range append(append(cursorOffsets(r, s.Src, allPos, o.PosSample), s.Offsets...), callOffsets(s.Src)...) {
 				pos, ok := tbl[off]
 				if !ok {
 					continue // inside a grapheme cluster: not a position an editor can send
